@@ -4,21 +4,24 @@
 (* last element tells how the run ends (normal end = auto-commit, or EXIT)    *)
 (* and what every file must then contain.                                     *)
 EXTENDS TxnMC, Json
-CONSTANT Depth
+CONSTANTS Depth, GenActs,
+          Weight,    \* copies of COMMIT / ROLLBACK (so that procedures cross several transaction boundaries)
+          ErrFrom    \* failing statements are generated from this step on (they end the run)
 VARIABLES hist, fin
 GenInit == Init /\ hist = <<[act |-> "init", disk |-> disk]>> /\ fin = FALSE
 \* COMMIT and ROLLBACK get weight (several copies distinguished by k) so that procedures cross several
 \* transaction boundaries; failing statements are generated only near the end (they end the run)
-ScriptActions == {a \in Actions : a.act \notin {"env", "disk"}}
-                 \cup {A(x, "", w, 0) : x \in {"commit", "rollback"}, w \in 1..10}
+ScriptActions == {a \in GenActs : a.act \notin {"env", "disk"}}
+                 \cup {A(x, "", w, 0) : x \in {"commit", "rollback"}, w \in 1..Weight}
                  \cup {A("select", t, w, 0) : t \in Tables, w \in 1..2}
 GenNext ==
   \/ /\ ~fin /\ ~ended /\ Len(hist) <= Depth
      /\ \E a \in ScriptActions : /\ Do(a)
-                                  /\ (out'.k # "err" \/ Len(hist) >= Depth - 1)
+                                  /\ (out'.k # "err" \/ Len(hist) >= ErrFrom)
                                   /\ hist' = Append(hist, [a |-> a, exp |-> out']) /\ UNCHANGED fin
   \/ /\ ~fin /\ (ended \/ Len(hist) >= Depth - 3)
-     /\ \E how \in (IF ended THEN {"error"} ELSE {"normal", "exit"}) :
+     \* a normal end commits; if that COMMIT fails the run has ended by an error after all
+     /\ \E how \in (IF ended THEN {"error"} ELSE IF Unencodable # {} THEN {"commitfail", "exit"} ELSE {"normal", "exit"}) :
           hist' = Append(hist, [a |-> [act |-> "end", t |-> how, k |-> 0, x |-> 0],
                                 exp |-> [k |-> "end", e |-> how, vals |-> <<>>],
                                 final |-> [f \in AllFiles |-> Show(FinalDisk(how = "normal")[f])]])
